@@ -119,12 +119,9 @@ func checkReceiver(p *Prog, r *Report, fn *ssa.Function) {
 	// the goroutine containing the read loop
 	var loopFn *ssa.Function
 	for _, g := range GoClosures(fn) {
-		for _, b := range g.Blocks {
-			for _, in := range b.Instrs {
-				if c, ok := in.(*ssa.Call); ok && IsCallTo(&c.Call, fnReaderRead) {
-					loopFn = g
-				}
-			}
+		// directly, or through a small forwarding method of the package (expanded in place below)
+		if staticReachesInvoke(g, "ReadPacketData", 1) {
+			loopFn = g
 		}
 	}
 	if loopFn == nil {
